@@ -87,11 +87,13 @@ type c12stub struct {
 	closed int
 }
 
-func (c *c12stub) Read([]byte) (int, error)         { return 0, io.EOF }
-func (c *c12stub) Write(p []byte) (int, error)      { c.out = append(c.out, p...); return len(p), nil }
-func (c *c12stub) Close() error                     { c.closed++; return nil }
-func (c *c12stub) LocalAddr() net.Addr              { return &net.TCPAddr{IP: net.IPv4(127, 0, 0, 1), Port: 80} }
-func (c *c12stub) RemoteAddr() net.Addr             { return &net.TCPAddr{IP: net.IPv4(10, 0, 0, c.ip), Port: 4000} }
+func (c *c12stub) Read([]byte) (int, error)    { return 0, io.EOF }
+func (c *c12stub) Write(p []byte) (int, error) { c.out = append(c.out, p...); return len(p), nil }
+func (c *c12stub) Close() error                { c.closed++; return nil }
+func (c *c12stub) LocalAddr() net.Addr         { return &net.TCPAddr{IP: net.IPv4(127, 0, 0, 1), Port: 80} }
+func (c *c12stub) RemoteAddr() net.Addr {
+	return &net.TCPAddr{IP: net.IPv4(10, 0, 0, c.ip), Port: 4000}
+}
 func (c *c12stub) SetDeadline(time.Time) error      { return nil }
 func (c *c12stub) SetReadDeadline(time.Time) error  { return nil }
 func (c *c12stub) SetWriteDeadline(time.Time) error { return nil }
@@ -478,7 +480,7 @@ type c12obs struct {
 	phase               int    // 1 once the idle gap is over
 	retired             int    // threads that ended during the idle gap (= idle workers retired by the pool's cleaner)
 	midSig, mid         string // counters not back to zero at the quiescence before the idle gap
-	ticks               int // watchdog: virtual minutes during which nothing could run
+	ticks               int    // watchdog: virtual minutes during which nothing could run
 	stuck               string
 }
 
@@ -928,9 +930,11 @@ func (c *c12sconn) Write(p []byte) (int, error) {
 	c.out = append(c.out, p...)
 	return len(p), nil
 }
-func (c *c12sconn) Close() error         { c.closed++; return nil }
-func (c *c12sconn) LocalAddr() net.Addr  { return &net.TCPAddr{IP: net.IPv4(127, 0, 0, 1), Port: 80} }
-func (c *c12sconn) RemoteAddr() net.Addr { return &net.TCPAddr{IP: net.IPv4(10, 0, 0, c.ip), Port: 1000 + c.idx} }
+func (c *c12sconn) Close() error        { c.closed++; return nil }
+func (c *c12sconn) LocalAddr() net.Addr { return &net.TCPAddr{IP: net.IPv4(127, 0, 0, 1), Port: 80} }
+func (c *c12sconn) RemoteAddr() net.Addr {
+	return &net.TCPAddr{IP: net.IPv4(10, 0, 0, c.ip), Port: 1000 + c.idx}
+}
 func (c *c12sconn) SetDeadline(time.Time) error      { return nil }
 func (c *c12sconn) SetReadDeadline(time.Time) error  { return nil }
 func (c *c12sconn) SetWriteDeadline(time.Time) error { return nil }
@@ -1483,7 +1487,7 @@ func TestVerif_C12(t *testing.T) {
 		// one scenario per first operation (they run in parallel); the remaining length-1 operations are free choices
 		for _, op := range h.alphabet {
 			name := fmt.Sprintf("history/conc%d/maxip%d/%c+%dx[%s]/b%d", h.conc, h.maxip, op, h.length-1, h.alphabet, h.bound)
-			first[name] = h.tier == 0
+			first[name] = true
 			add(name, h.bound, 8000,
 				c12history(c12hp{conc: h.conc, maxip: h.maxip, prefix: string(op), free: h.length - 1, alphabet: h.alphabet}), c12historyCheck)
 		}
@@ -1501,8 +1505,8 @@ func TestVerif_C12(t *testing.T) {
 	}
 	r.Set("kernel_preemption_bound", fmt.Sprint(kb))
 	// scenarios are dealt round-robin to the worker processes, each of which has its own time cap: the many small history
-	// scenarios of the quick tier go first so that an overloaded machine cuts into the tail of one big scenario rather
-	// than skipping them (the thorough-only histories stay at the end of the list)
+	// scenarios go first (1-2 minutes per worker in the thorough tier) so that the cap cuts into the tail of one of the
+	// multi-million-execution server scenarios, which do not complete their bound anyway, rather than skipping histories
 	sort.SliceStable(scs, func(i, j int) bool { return first[scs[i].Name] && !first[scs[j].Name] })
 	mcx.Run(r, scs)
 }
